@@ -4,7 +4,8 @@ Space: code items over an instruction skeleton of L code units (L = 6 even, L = 
 k in {1,2,3} try items whose (start,count) are ALL ordered non-overlapping ranges of the skeleton; each try picks its
 handler from the handler alphabet H (typed x {0,1,2} pairs in both orders, catch-all present/absent, type index < 128 and
 >= 128 (two-byte uleb), handler addresses at both ends of the skeleton); the encoded handler list is the distinct picked
-handlers in first-use order, in reversed order, and with an unused handler in front (shared vs distinct handler lists arise
+handlers in first-use order, in reversed order, with an unused handler in front, and with legal NON-minimal LEB128
+numbers in all handlers / in the first handler only (shared vs distinct handler lists arise
 from the picks).  k=3 uses the reduced alphabet H3 in quick, all of H in thorough.
 Oracle: the generating model.  determineException as a multiset of [start*2, end*2-1, (type,addr*2)..., (Throwable, catch_all*2)]
 with the handler order preserved inside each range; DalvikCode.get_tries / get_handlers in file order.
@@ -64,9 +65,11 @@ def cases(ctx):
             alpha = range(8) if (k < 3 or ctx.thorough) else H3
             for rg in ranges(L, k):
                 for picks in itertools.product(alpha, repeat=k):
-                    for layout in (0, 1, 2):
+                    for layout in (0, 1, 2, 3, 4):
                         if layout == 1 and len(set(picks)) == 1:
                             continue        # reversed order identical
+                        if layout in (3, 4) and k == 3 and not ctx.thorough and picks[0] not in (0, 6):
+                            continue        # padded-number layouts for k=3: reduced in quick
                         yield (L, rg, picks, layout)
 
 
@@ -87,6 +90,16 @@ def build_case(case):
     return tries, hl
 
 
+def pad_flags(case, nh):
+    """which handlers of the encoded list carry non-minimal LEB128 numbers"""
+    layout = case[3]
+    if layout == 3:
+        return [True] * nh
+    if layout == 4:
+        return [True] + [False] * (nh - 1)
+    return [False] * nh
+
+
 def features(case):
     L, rg, picks, layout = case
     H = handler_alphabet(L)
@@ -102,7 +115,7 @@ def features(case):
     if any(t == BIG for p in picks for t, _ in H[p][0]):
         f.append("uleb2-type-idx")
     if layout:
-        f.append(["", "reversed-list", "unused-handler-first"][layout])
+        f.append(["", "reversed-list", "unused-handler-first", "nonminimal-leb128", "first-handler-nonminimal-leb128"][layout])
     return f
 
 
@@ -116,7 +129,8 @@ def build_dex(batch):
     ms = []
     for i, case in enumerate(batch):
         tries, hl = build_case(case)
-        code = G.Code(1, 0, 0, skeleton(case[0]), tries, [G.Handler(p, ca) for p, ca in hl])
+        pf = pad_flags(case, len(hl))
+        code = G.Code(1, 0, 0, skeleton(case[0]), tries, [G.Handler(p, ca, pad=f) for (p, ca), f in zip(hl, pf)])
         ms.append(G.Method("m%03d" % i, "V", (), G.ACC_STATIC | G.ACC_PUBLIC, code))
     big_types = ["Lzy/T%03d;" % i for i in range(140)]        # push Lzz/Big; to a type index >= 128
     return G.Dex([G.Class("La/T;", dmethods=ms)], extra_types=big_types)
@@ -184,7 +198,7 @@ def shards(ctx):
 def space(ctx):
     n = sum(1 for _ in cases(ctx))
     return {"skeleton_units": [6, 7], "k": [1, 2, 3], "handler_alphabet": 8, "k3_alphabet": 8 if ctx.thorough else 3,
-            "layouts": ["first-use order", "reversed", "unused handler first"], "methods": n, "methods_per_dex": BATCH}
+            "layouts": ["first-use order", "reversed", "unused handler first", "all numbers non-minimal LEB128", "first handler non-minimal LEB128"], "methods": n, "methods_per_dex": BATCH}
 
 
 def run_shard(ctx, shard):
